@@ -13,7 +13,7 @@ SUFFIX_SENTINEL = b"<<SUFFIX-91c2>>"
 CLASSES = ["reserved_opcode", "reserved_bits", "fragmented_control", "control_too_long",
            "masked_frame", "nothing_to_continue", "expected_continuation", "length_2^63",
            "close_1_byte", "close_reserved_code", "close_bad_utf8", "text_bad_utf8",
-           "text_bad_utf8_later_fragment"]
+           "text_bad_utf8_later_fragment", "text_bad_utf8_nonfinal_fragment"]
 
 BAD_UTF8 = [b"\xc0\xaf", b"\xed\xa0\x80", b"\xf4\x90\x80\x80", b"\xff", b"\x80", b"\xe2\x82",
             b"abc\xc3", b"\xf0\x8f\xbf\xbf", b"ok\xfeok"]
@@ -83,11 +83,17 @@ def violating_frames(v, deflate):
     if cls == "text_bad_utf8_later_fragment":
         bad = BAD_UTF8[a % len(BAD_UTF8)]
         return B(wire.TEXT, s, fin=0) + B(wire.CONT, b"mid", fin=0) + B(wire.CONT, bad + b"z")
+    if cls == "text_bad_utf8_nonfinal_fragment":
+        # the offending bytes sit in a NON-final fragment, optionally after a control frame
+        # interleaved in the message; the message is never finished (the suffix follows)
+        bad = BAD_UTF8[a % len(BAD_UTF8)]
+        ctrl = [b"", B(wire.PING, b"between"), B(wire.PONG, b"between")][b % 3]
+        return B(wire.TEXT, b"first-", fin=0) + ctrl + B(wire.CONT, s + bad + b"x", fin=0)
     raise ValueError(cls)
 
 
 NEEDS_OPEN = {"expected_continuation"}
-NEEDS_CLOSED = {"nothing_to_continue", "text_bad_utf8_later_fragment"}
+NEEDS_CLOSED = {"nothing_to_continue", "text_bad_utf8_later_fragment", "text_bad_utf8_nonfinal_fragment"}
 
 
 def deflate_reply():
@@ -224,6 +230,10 @@ class C04(Prop):
             return self.run_header(case)
         if "stream" in case:
             return self.run_stream(case)
+        if case["viol"]["class"] == "text_bad_utf8_nonfinal_fragment" and case["deflate"]:
+            # with the extension negotiated lomond reads text unvalidated until the message ends
+            # (not demanded, see DESIGN.md C05): this class is exercised on plain connections
+            case = dict(case, deflate=False)
         data, viol_at, built = self.build_stream(case)
         deflate = case["deflate"]
         model = refmodel.interpret(data, {"server_nct": False} if deflate else None)
